@@ -31,9 +31,10 @@ const rule = "case = (operation sequence over one pool: add n tasks | set worker
 
 // Op is one pool operation.
 type Op struct {
-	K    string `json:"k"` // add | adddep | workers | settle | waitall | joinall
+	K    string `json:"k"` // add | adddep | workers | settle | waitall | joinall | regrow
 	N    int    `json:"n,omitempty"`
 	Wait bool   `json:"wait,omitempty"`
+	Now  bool   `json:"now,omitempty"` // workers, wait=false: the next operation follows at once (the pool has not converged yet)
 }
 
 // Case is one history.
@@ -54,12 +55,19 @@ type task struct {
 	clock   *int64
 	waitFor []*task       // a dependent task returns only when these have finished (or the case is torn down)
 	release chan struct{} // closed at teardown
+	gate    chan struct{} // not nil: the task returns when this channel is closed (or the case is torn down)
 }
 
 func (t *task) Run(tid uint64) error {
 	atomic.AddInt32(&t.runs, 1)
 	for i := 0; i < t.yield; i++ {
 		time.Sleep(time.Microsecond)
+	}
+	if t.gate != nil {
+		select {
+		case <-t.gate:
+		case <-t.release:
+		}
 	}
 	for _, d := range t.waitFor {
 		for atomic.LoadInt64(&d.done) == 0 {
@@ -236,7 +244,7 @@ func runCase(c Case) (fail *hx.Failure) {
 		}
 	}()
 
-	queuedAtResize, heldAtResize := false, false
+	queuedAtResize, heldAtResize, regrown, unsettled := false, false, false, false
 	for i, op := range c.Ops {
 		verifhook.At("h.op", i)
 		switch op.K {
@@ -281,6 +289,10 @@ func runCase(c Case) (fail *hx.Failure) {
 				if got := r.tp.WorkerCount(); got != n {
 					return hx.Failf("worker-count-after-wait", "SetWorkerCount(%d, true) returned with %d workers", n, got)
 				}
+			} else if op.Now {
+				// no convergence is awaited: the next operation meets a pool whose stop requests are still being taken
+				unsettled = true
+				continue
 			} else if f := r.passive("worker-count", func() bool { return r.tp.WorkerCount() == n }, func(s snapshot) string {
 				if s.workers != n && s.idle == s.total {
 					return "worker-count-not-converging"
@@ -299,6 +311,62 @@ func runCase(c Case) (fail *hx.Failure) {
 				}
 				time.Sleep(50 * time.Microsecond)
 			}
+		case "regrow":
+			// two workers are busy, the others idle; one goroutine of the host lowers the count to 1 without waiting (the
+			// idle workers go, one stop request stays pending, the call waits for an idle worker), another one raises it
+			// to 3; then the tasks end. The pool has to end up with the number of workers of the LAST request.
+			if r.workers < 3 || r.pending() > 0 || r.s.ActiveHolds() > 0 {
+				continue
+			}
+			w := r.workers
+			gate := make(chan struct{})
+			var busy []*task
+			for k := 0; k < 2; k++ {
+				t := &task{id: len(r.tasks), clock: &r.clock, release: r.release, gate: gate}
+				r.tasks = append(r.tasks, t)
+				busy = append(busy, t)
+				r.tp.AddTask(t)
+			}
+			if f := r.passive("regrow-tasks-start", func() bool {
+				return atomic.LoadInt32(&busy[0].runs) == 1 && atomic.LoadInt32(&busy[1].runs) == 1
+			}, func(s snapshot) string { return "" }); f != nil {
+				close(gate)
+				return f
+			}
+			const up = 3
+			done1, done2 := make(chan struct{}), make(chan struct{})
+			go func() { r.tp.SetWorkerCount(1, false); close(done1) }()
+			if f := r.passive("regrow-idle-workers-go", func() bool { return r.tp.WorkerCount() == 2 }, func(s snapshot) string { return "" }); f != nil {
+				close(gate)
+				return f
+			}
+			go func() { r.tp.SetWorkerCount(up, false); close(done2) }()
+			time.Sleep(time.Duration(1+op.N) * 200 * time.Microsecond)
+			close(gate)
+			for _, ch := range []chan struct{}{done1, done2} {
+				select {
+				case <-ch:
+				case <-time.After(stuckBound):
+					return hx.Failf("setworkercount-does-not-return", "%d workers, 2 of them busy: SetWorkerCount(1, false) and, once the idle workers were gone, SetWorkerCount(%d, false) from another goroutine; the tasks ended %v ago and one of the calls has not returned", w, up, stuckBound)
+				}
+			}
+			r.workers = up
+			if f := r.passive("worker-count", func() bool { return r.tp.WorkerCount() == up && r.pending() == 0 }, func(s snapshot) string {
+				if s.workers != up && s.idle == s.total {
+					return "worker-count-not-converging"
+				}
+				return ""
+			}); f != nil {
+				f.Msg = fmt.Sprintf("%d workers, 2 of them busy, SetWorkerCount(1, false), SetWorkerCount(%d, false) from another goroutine, then the tasks end: %s", w, up, f.Msg)
+				return f
+			}
+			for k := 0; k < 20; k++ {
+				time.Sleep(100 * time.Microsecond)
+				if got := r.tp.WorkerCount(); got != up {
+					return hx.Failf("worker-count-overshoot", "%d workers, 2 of them busy, SetWorkerCount(1, false), SetWorkerCount(%d, false) from another goroutine, then the tasks end: the pool reached %d workers and then went to %d", w, up, up, got)
+				}
+			}
+			regrown = true
 		case "settle":
 			if r.workers >= 1 {
 				if f := r.passive("settle", func() bool { return r.pending() == 0 }, func(s snapshot) string {
@@ -364,9 +432,22 @@ func runCase(c Case) (fail *hx.Failure) {
 	if f := r.overrun(); f != nil {
 		return f
 	}
+	if unsettled {
+		// resize requests followed each other without waiting: the pool has to end up with the number of the LAST one
+		want := r.workers
+		if f := r.passive("worker-count", func() bool { return r.tp.WorkerCount() == want }, func(s snapshot) string {
+			if s.workers != want && s.idle == s.total {
+				return "worker-count-not-converging"
+			}
+			return ""
+		}); f != nil {
+			f.Msg = "after resize requests which followed each other without waiting for the pool to converge: " + f.Msg
+			return f
+		}
+	}
 
 	rel, _ := r.s.HoldStats()
-	nt := rel > 0 || queuedAtResize || heldAtResize
+	nt := rel > 0 || queuedAtResize || heldAtResize || unsettled
 	key := fmt.Sprint(c.Ops, c.Plan, c.Yield)
 	classes := []string{fmt.Sprintf("ops.%d", len(c.Ops)/4*4)}
 	if rel > 0 {
@@ -377,6 +458,12 @@ func runCase(c Case) (fail *hx.Failure) {
 	}
 	if heldAtResize {
 		classes = append(classes, "resize.with-worker-held")
+	}
+	if unsettled {
+		classes = append(classes, "resize.next-operation-before-convergence")
+	}
+	if regrown {
+		classes = append(classes, "resize.down-then-up-while-workers-busy")
 	}
 	seen := map[string]bool{}
 	for _, op := range c.Ops {
@@ -422,11 +509,20 @@ func genCase(rt *rapid.T) Case {
 		case k <= 6:
 			c.Ops = append(c.Ops, Op{K: "settle"})
 		case k <= 8:
-			c.Ops = append(c.Ops, Op{K: "workers", N: pick(9, "wn"), Wait: pick(2, "ww") == 0})
+			o := Op{K: "workers", N: pick(9, "wn"), Wait: pick(2, "ww") == 0}
+			if !o.Wait && pick(2, "wnow") == 0 {
+				// followed at once by another resize (the sequence the command line's reload produces: stop, start)
+				o.Now = true
+				c.Ops = append(c.Ops, o, Op{K: "workers", N: 1 + pick(8, "wn2"), Wait: pick(2, "ww2") == 0})
+			} else {
+				c.Ops = append(c.Ops, o)
+			}
 		case k == 9:
 			c.Ops = append(c.Ops, Op{K: "waitall"})
 		case k == 10:
 			c.Ops = append(c.Ops, Op{K: "joinall"}, Op{K: "workers", N: 1 + pick(4, "rw"), Wait: pick(2, "rww") == 0})
+		case k == 11 && pick(2, "regrow") == 0:
+			c.Ops = append(c.Ops, Op{K: "settle"}, Op{K: "regrow", N: pick(4, "regn")})
 		case k == 11:
 			c.Ops = append(c.Ops, Op{K: "adddep", N: 1 + pick(4, "depn")}, Op{K: "settle"})
 		default:
